@@ -109,8 +109,11 @@ class Scenario:
         simu.add_dirichlet(lo, [0.0] * len(unk), unk)
         if cfg["bc"] == 0:
             simu.add_neumann(hi, [0.4], [unk[-1]])
-        else:
+        elif cfg["bc"] == 1:
             simu.add_dirichlet(hi, [0.05], [unk[0]])
+        else:
+            # same number of conditions and of constrained dof entries as variant 1, on other dofs
+            simu.add_dirichlet(hi, [0.03], [unk[-1]])
 
     def sides_by_index(self, mesh, cfg):
         # node sets are fixed by NODE INDEX of the template (independent of later motions of the coordinates)
@@ -142,6 +145,9 @@ class Scenario:
                 mats = simu.Get_K_C_M_F()
             for nm, A in zip("KCMF", mats):
                 out[f"{pt}.{nm}"] = A.toarray()
+                # the returned matrices belong to the caller: scribbling on them must not reach the simulation
+                if A.nnz:
+                    A.data[:] = -7.0
         return out
 
     result_names: list = []
@@ -240,7 +246,7 @@ class Scenario:
             # the mesh setter re-initialises conditions and solutions (documented in the setter): re-enter the conditions
             self.apply_bc(simu, cfg)
         elif op == "rebc":
-            cfg["bc"] = 1 if cfg["bc"] == 0 else 0
+            cfg["bc"] = {0: 1, 1: 2, 2: 0}.get(cfg["bc"], 0)
             self.apply_bc(simu, cfg)
         elif op == "algo":
             if cfg["algo"][0] == "elliptic":
